@@ -270,6 +270,12 @@ impl FilterSut {
                 let (i, n) = (util::i(op, "ip"), util::i(op, "node"));
                 let bytes = match util::s(op, "kind") {
                     "msg" => random_packet(&node(n)).encode(&self.local_id),
+                    // a handshake datagram also names its sender (signature / key / message are not looked at by the receive task)
+                    "hs" => {
+                        let mut pv = random_packet(&node(n));
+                        pv.kind = discv5::packet::PacketKind::Handshake { src_id: node(n), id_nonce_sig: vec![7; 64], ephem_pubkey: vec![2; 33], enr_record: None };
+                        pv.encode(&self.local_id)
+                    }
                     "way" => whoareyou_packet(rand::random(), rand::random(), 1).encode(&self.local_id),
                     _ => vec![0xab; 30],     // shorter than any packet: does not decode
                 };
@@ -490,6 +496,7 @@ fn drive_packets(seed: u64, n: usize, out: &mut Out, recv: bool) -> Result<(), S
                 0..=10 if recv => match rng.gen_range(0..10) {
                     0 => json!({"o": "dgram", "ip": i, "kind": "way", "node": 0}),
                     1 => json!({"o": "dgram", "ip": i, "kind": "junk", "node": 0}),
+                    2 | 3 | 4 => json!({"o": "dgram", "ip": i, "kind": "hs", "node": nd}),
                     _ => json!({"o": "dgram", "ip": i, "kind": "msg", "node": nd}),
                 },
                 0..=10 => json!({"o": "pkt", "ip": i, "node": if rng.gen_bool(0.15) { 0 } else { nd }}),
